@@ -14,7 +14,8 @@ def run(R, tier, seed):
                   "native oracle: the real copia binary under strace"]
     R.assumptions += ["kill points are NOT explored: atomicity of rename(2) is the kernel's; a killed process leaves at worst a `.copia-tmp` staging file (a reserved name) — "
                       "ARGUED from the decided order, not decided",
-                      "local and pull directions only; push (`cat > tmp && mv -f tmp dst` run by a remote shell) and transfer_file_from_remote's own child-process handling are NOT covered",
+                      "local and pull directions only; push (`cat > tmp && mv -f tmp dst` run by a remote shell) is NOT covered; the pull transport is decided with the ssh child, its pipe and "
+                      "exit status as arbitrary inputs, and validated natively through a two-line local stand-in for ssh (no sshd in the sandbox)",
                       "one schedule (futures complete at their await)"]
     ctx = c04.Ctx()
     prover = Prover(R, tier)
@@ -29,11 +30,21 @@ def run(R, tier, seed):
                     r["key"] = r["key"].replace("C04/", "C09/", 1)
         return g
     for what, f in (("deliver_local", rename_pid(lambda: c04.deliver_obligation(ctx, R, prover))), ("deliver_pull", lambda: c04.deliver_pull_obligation(ctx, R, prover, "C09")),
+                    ("transfer_file_from_remote", lambda: c04.pull_stream_obligation(ctx, R, prover, "C09")),
                     ("run_local", rename_pid(lambda: c04.run_local_obligation(ctx, R, prover, 2 if tier == "quick" else 3)))):
         try:
             f()
         except (Inconclusive, Unsupported) as e:
             R.add("C09/%s/encoding" % what, "inconclusive", detail=str(e)[:400])
+    # the real pull through a local stand-in for ssh (validation each run)
+    try:
+        w = c04.native_pull_witness(R, "C09")("validation", None, None)
+        if w["confirmed"]:
+            R.add("C09/native-pull", "violated", confirmed=True, replay_path=w["replay_path"], key=w["key"], detail=w["detail"])
+        else:
+            R.add("C09/native-pull", "holds", queries=0, solver_s=0.0, detail=w["detail"] + " (validation, not the deciding step)")
+    except Exception as e:  # noqa: BLE001
+        R.add("C09/native-pull", "inconclusive", detail=str(e)[:300])
     o = c04.order_witness(R, "C09")
     if o["confirmed"]:
         R.add("C09/native-order", "violated", confirmed=True, replay_path=o["replay_path"], key=o["key"], detail=o["detail"])
